@@ -1,3 +1,4 @@
 import Driver.Util
 import Driver.Tags
 import Driver.Proto
+import Driver.Frame
